@@ -360,6 +360,159 @@ class _Fn:
         return "\n".join(out)
 
 
+# ================================================================================================ numeric functions (W21)
+EXC = {"ValueError": ".valueError", "TypeError": ".typeError", "RuntimeError": ".runtimeError", "ZeroDivisionError": ".zeroDiv"}
+VEQ = "Reduino.Host.Utils.veq"
+NUM_RESERVED = {"α", "Val", "Num", "Except", "Exc", "Reduino"}
+NUM_VARIABLES = ("variable {α : Type} [Num α] [LT α] [LE α] [DecidableLT α] [DecidableLE α]\n"
+                 "variable [Add α] [Sub α] [Mul α] [Div α] [Neg α]\n")
+
+
+class _NumFn:
+    """translation of one straight-line function over Python numbers (shape "num", see the module docstring)"""
+
+    def __init__(self, node: ast.FunctionDef, pyname: str):
+        self.node, self.pyname = node, pyname
+        self.name = lean_name_of(pyname)
+        self.params: list[str] = []
+        self.hooks: set[str] = set()        # keyword-only parameters with default None
+        self.locals: list[str] = []
+        self.effect = None                  # the local bound to `<hook> or <dotted name>`
+        self.distinct: set[frozenset] = set()   # {x, y} after a passed guard `if x == y: raise`
+
+    def bad(self, node, why=""):
+        return Unsupported(type(node).__name__, getattr(node, "lineno", 0), why, self.pyname)
+
+    def ident(self, name, node):
+        if name in NUM_RESERVED:
+            raise self.bad(node, f"identifier {name!r} collides with a name the translator binds")
+        try:
+            return lean_ident(name)
+        except Unsupported as u:
+            raise self.bad(node, u.why) from None
+
+    # ---- expressions -> Lean term of type `Val α`
+    def num(self, e) -> str:
+        if isinstance(e, ast.Name) and isinstance(e.ctx, ast.Load):
+            if e.id in self.params or e.id in self.locals:
+                return self.ident(e.id, e)
+            raise self.bad(e, f"{e.id!r} is not a number parameter or a local assigned before")
+        if isinstance(e, ast.Constant):
+            v = e.value
+            if type(v) is int:
+                return f"(Val.int {v})" if v >= 0 else f"(Val.int ({v}))"
+            if type(v) is float and v == v and abs(v) < 2.0 ** 53 and v == int(v):
+                return f"(Val.flt (Num.ofInt {int(v)}))" if v >= 0 else f"(Val.flt (Num.ofInt ({int(v)})))"
+            raise self.bad(e, "only int literals and float literals with an integral value")
+        if isinstance(e, ast.UnaryOp) and isinstance(e.op, ast.USub):
+            return f"(Val.neg {self.num(e.operand)})"
+        if isinstance(e, ast.BinOp):
+            ops = {ast.Add: "Val.add", ast.Sub: "Val.sub", ast.Mult: "Val.mul", ast.Div: "Val.div"}
+            if type(e.op) not in ops:
+                raise self.bad(e, "only + - * /")
+            if isinstance(e.op, ast.Div):
+                self.nonzero(e.right, e)
+            return f"({ops[type(e.op)]} {self.num(e.left)} {self.num(e.right)})"
+        if (isinstance(e, ast.Call) and isinstance(e.func, ast.Name) and e.func.id == "float" and len(e.args) == 1 and not e.keywords
+                and "float" not in self.params and "float" not in self.locals):
+            return f"(Val.toFloat {self.num(e.args[0])})"
+        raise self.bad(e, "not a numeric expression of the subset")
+
+    def nonzero(self, d, at):
+        """the divisor must be known to be non-zero: Python raises ZeroDivisionError there, `Val.div` does not"""
+        if isinstance(d, ast.Constant) and type(d.value) in (int, float) and d.value != 0:
+            return
+        if (isinstance(d, ast.BinOp) and isinstance(d.op, ast.Sub) and isinstance(d.left, ast.Name) and isinstance(d.right, ast.Name)
+                and frozenset((d.left.id, d.right.id)) in self.distinct):
+            return
+        raise self.bad(at, "the divisor is neither a non-zero literal nor `x - y` after a guard `if x == y: raise ...`")
+
+    def cond(self, e) -> str:
+        if isinstance(e, ast.Compare) and len(e.ops) == 1:
+            a, b = self.num(e.left), self.num(e.comparators[0])
+            op = type(e.ops[0])
+            table = {ast.Eq: f"{VEQ} {a} {b}", ast.NotEq: f"!{VEQ} {a} {b}", ast.Lt: f"Val.lt {a} {b}", ast.LtE: f"Val.le {a} {b}",
+                     ast.Gt: f"Val.lt {b} {a}", ast.GtE: f"Val.le {b} {a}"}
+            if op in table:
+                return table[op]
+        raise self.bad(e, "only a single comparison `a <op> b` with == != < <= > >=")
+
+    # ---- statements -> lines of a Lean term of type `Except Exc (Val α)`
+    def block(self, stmts, ind) -> list[str]:
+        pad = "  " * ind
+        if not stmts:
+            raise self.bad(self.node, "the function ends without `return <expr>` or a call of its effect")
+        s, tail = stmts[0], stmts[1:]
+        if isinstance(s, ast.If):
+            r = s.body[0] if len(s.body) == 1 else None
+            if s.orelse or not isinstance(r, ast.Raise) or r.cause is not None:
+                raise self.bad(s, "only `if <comparison>: raise <Error>(...)` without else")
+            exc = r.exc.func if isinstance(r.exc, ast.Call) else r.exc
+            if not (isinstance(exc, ast.Name) and exc.id in EXC):
+                raise self.bad(r, "raises something other than " + "/".join(EXC))
+            c = self.cond(s.test)
+            cmp = s.test
+            if isinstance(cmp.ops[0], ast.Eq) and isinstance(cmp.left, ast.Name) and isinstance(cmp.comparators[0], ast.Name):
+                self.distinct.add(frozenset((cmp.left.id, cmp.comparators[0].id)))
+            return [pad + f"if {c} then .error {EXC[exc.id]}", pad + "else"] + self.block(tail, ind + 1)
+        if isinstance(s, ast.Assign):
+            if len(s.targets) != 1 or not isinstance(s.targets[0], ast.Name):
+                raise self.bad(s, "single-name assignment only")
+            name = s.targets[0].id
+            if name in self.params or name in self.hooks or name in self.locals or name == self.effect:
+                raise self.bad(s, f"{name!r} is assigned twice or shadows a parameter")
+            v = s.value
+            if (isinstance(v, ast.BoolOp) and isinstance(v.op, ast.Or) and len(v.values) == 2 and isinstance(v.values[0], ast.Name)
+                    and v.values[0].id in self.hooks and self.dotted(v.values[1]) and self.effect is None):
+                self.effect = name          # `<hook> or <default callable>`: the effect; no Lean text
+                return self.block(tail, ind)
+            t = self.num(v)
+            self.locals.append(name)
+            return [pad + f"let {self.ident(name, s)} := {_Fn.unparen(t)}"] + self.block(tail, ind)
+        if isinstance(s, ast.Return):
+            if s.value is None or tail:
+                raise self.bad(s, "`return <expr>` must be the last statement")
+            return [pad + f".ok {self.num(s.value)}"]
+        if isinstance(s, ast.Expr) and isinstance(s.value, ast.Call):
+            c = s.value
+            if not (isinstance(c.func, ast.Name) and c.func.id == self.effect and len(c.args) == 1 and not c.keywords and not tail):
+                raise self.bad(s, "only one call `<effect>(<expr>)`, as the last statement")
+            return [pad + f".ok {self.num(c.args[0])}"]
+        raise self.bad(s, "not a statement of the subset")
+
+    @staticmethod
+    def dotted(e) -> bool:
+        while isinstance(e, ast.Attribute):
+            e = e.value
+        return isinstance(e, ast.Name)
+
+    def translate(self) -> str:
+        f, a = self.node, self.node.args
+        if f.decorator_list:
+            raise self.bad(f.decorator_list[0], "decorator")
+        if isinstance(f, ast.AsyncFunctionDef) or a.posonlyargs or a.vararg or a.kwarg or a.defaults or not a.args:
+            raise self.bad(f, "plain positional parameters without defaults (and keyword-only hooks `=None`)")
+        for k, d in zip(a.kwonlyargs, a.kw_defaults):
+            if not (isinstance(d, ast.Constant) and d.value is None):
+                raise self.bad(k, "a keyword-only parameter must default to None")
+            self.hooks.add(k.arg)
+        self.params = [x.arg for x in a.args]
+        if len(set(self.params) | self.hooks) != len(self.params) + len(self.hooks):
+            raise self.bad(f, "duplicate parameter")
+        stmts = list(f.body)
+        if stmts and isinstance(stmts[0], ast.Expr) and isinstance(stmts[0].value, ast.Constant) and isinstance(stmts[0].value.value, str):
+            stmts = stmts[1:]
+        body = self.block(stmts, 1)
+        ps = " ".join(self.ident(p, f) for p in self.params)
+        return "\n".join([f"/-- `{self.pyname}` (translated) -/", f"def {self.name} ({ps} : Val α) : Except Exc (Val α) :="] + body + [""])
+
+
+
+class _LinesFn:   # part B
+    def __init__(self, node, pyname):
+        raise Unsupported("FunctionDef", 0, "shape lines not built yet", pyname)
+
+
 HEADER = """/-- how a translated loop is left: by `return v`, or by `break` / exhaustion with the state `st` -/
 inductive Exit (σ ρ : Type) where
   | ret (v : ρ)
@@ -375,34 +528,40 @@ def function_ast(fn) -> ast.FunctionDef:
     return mod.body[0]
 
 
-def translate_function(fn) -> str:
-    """Lean text (structure + go + wrapper, or a single def) of the Python function object `fn`"""
+SHAPES = {"str": lambda n, name: _Fn(n, name), "num": lambda n, name: _NumFn(n, name), "lines": lambda n, name: _LinesFn(n, name)}
+
+
+def translate_function(fn, shape: str = "str") -> str:
+    """Lean text of the Python function object `fn`, read as a function of the given shape (see the module docstring)"""
     if not inspect.isfunction(fn):
         raise Unsupported(type(fn).__name__, 0, "not a Python function", getattr(fn, "__name__", "?"))
-    return _Fn(function_ast(fn), fn.__name__).translate()
+    return SHAPES[shape](function_ast(fn), fn.__name__).translate()
 
 
-def translate_source(src: str, name: str | None = None) -> str:
+def translate_source(src: str, name: str | None = None, shape: str = "str") -> str:
     """same, from source text (used by the self-tests)"""
     mod = ast.parse(textwrap.dedent(src))
     defs = [n for n in mod.body if isinstance(n, ast.FunctionDef) and (name is None or n.name == name)]
     if len(defs) != 1:
         raise Unsupported("Module", 1, "expected exactly one function definition")
-    return _Fn(defs[0], defs[0].name).translate()
+    return SHAPES[shape](defs[0], defs[0].name).translate()
 
 
-def module_text(namespace: str, functions, imports=()):
-    """-> (Lean text, [Unsupported]).  A function outside the subset is left out of the text (a comment says why), so that exactly the
-    obligations about it stop building; the caller reports the errors."""
+def module_text(namespace: str, functions, imports=(), preamble: str = ""):
+    """-> (Lean text, [Unsupported]).  `functions`: function objects (shape "str") or pairs (function, shape).  A function outside the
+    subset is left out of the text (a comment says why), so that exactly the obligations about it stop building; the caller reports the errors."""
     texts, errors = [], []
     for fn in functions:
+        fn, shape = fn if isinstance(fn, tuple) else (fn, "str")
         try:
-            texts.append(translate_function(fn))
+            texts.append(translate_function(fn, shape))
         except Unsupported as e:
             errors.append(e)
             texts.append(f"-- NOT TRANSLATED: `{getattr(fn, '__name__', '?')}` is outside the subset of harness/pytolean.py: {e}\n")
     lines = [f"import {m}" for m in imports]
     lines += [f"namespace {namespace}", ""]
+    if preamble:
+        lines.append(preamble)
     if any(" Exit " in t for t in texts):
         lines.append(HEADER)
     lines += texts
@@ -427,6 +586,20 @@ _REJECTED = {
 }
 
 
+_REJECTED_NUM = {
+    "BinOp": "def f(a, b):\n    return a / b\n",                               # divisor not known to be non-zero
+    "BinOp ": "def f(a, b):\n    return a ** b\n",
+    "Constant": "def f(a):\n    return a * 0.1\n",                             # not an integral float literal
+    "If": "def f(a, b):\n    if a < b:\n        return a\n    return b\n",
+    "Raise": "def f(a):\n    if a < 0:\n        raise KeyError(a)\n    return a\n",
+    "Assign": "def f(a):\n    a = a + 1\n    return a\n",
+    "Call": "def f(a):\n    return abs(a)\n",
+    "Expr": "def f(a, *, hook=None):\n    hook(a)\n",                          # the effect must be `h = hook or <callable>`
+    "Compare": "def f(a, b):\n    if 0 < a < b:\n        raise ValueError()\n    return a\n",
+    "FunctionDef": "def f(a, b=1):\n    return a\n",
+}
+
+
 def selftest(quiet: bool = False) -> int:
     import builtins
     print = (lambda *a, **k: None) if quiet else builtins.print
@@ -440,6 +613,20 @@ def selftest(quiet: bool = False) -> int:
             if e.kind != kind.strip():
                 print(f"selftest: {kind}: refused as {e}")
                 bad += 1
+    for kind, src in _REJECTED_NUM.items():
+        try:
+            translate_source(src, shape="num")
+            print("selftest: ACCEPTED a numeric function outside the subset:", kind)
+            bad += 1
+        except Unsupported as e:
+            if e.kind != kind.strip():
+                print(f"selftest: num {kind}: refused as {e}")
+                bad += 1
+    ok = translate_source("def g(a, b, c, *, out=None):\n    if b == a:\n        raise TypeError('x')\n    q = (c - 2) / (a - b)\n    emit = out or print\n    emit(float(q) / 2.0)\n", shape="num")
+    if ("if Reduino.Host.Utils.veq b a then .error .typeError" not in ok or "let q := Val.div (Val.sub c (Val.int 2)) (Val.sub a b)" not in ok
+            or ".ok (Val.div (Val.toFloat q) (Val.flt (Num.ofInt 2)))" not in ok):
+        print("selftest: unexpected translation\n" + ok)
+        bad += 1
     ok = translate_source("def count(s):\n    n = 0\n    q = False\n    for c in s:\n        if c == '\"':\n            q = not q\n            continue\n        if q or c != ' ':\n            n += 2\n    return n\n")
     if "{ st with n := st.n + 2 }" not in ok or "{ st with q := !st.q }" not in ok:
         print("selftest: unexpected translation\n" + ok)
